@@ -269,10 +269,10 @@ def gen_cases(seed, tier):
     for i in range(n):
         kind = KINDS[i % 3]
         j = i // 3
-        asc = bool(j % 2)
-        comp = COMP[j % 7]
-        t0c = T0[(j // 2) % 7]
-        hist = HIST[(j // 14) % 3]
+        asc = bool(common.stratum(j, 101, 2))
+        comp = common.stratum(j, 102, COMP)
+        t0c = common.stratum(j, 103, T0)
+        hist = common.stratum(j, 104, HIST)
         pols = 2 if kind == 'ant2' else 1
         is_ant = kind != 'stream'
         fs = float(common.pick(rng, RATES)) if rng.random() < 0.85 else float(round(10 ** rng.uniform(4.7, 9.47), 3))
@@ -291,9 +291,9 @@ def gen_cases(seed, tier):
                 o.append(_gen_noise(rng) if k == 0 else (_gen_chirp(rng, fs, fch1, asc, tmax, j) if k == 1
                                                          else _gen_custom(rng, tmax, j)))
         if kind == 'stream':
-            seedform = ['int', 'int', 'none', 'generator'][(j // 3) % 4]
+            seedform = common.stratum(j, 105, ['int', 'int', 'none', 'generator'])
         else:
-            seedform = ['int', 'int', 'none'][(j // 3) % 3]
+            seedform = common.stratum(j, 105, ['int', 'int', 'none'])
         cases.append(dict(kind=kind, asc=asc, t0_class=t0c, t0=t0, hist=hist, comp=comp, fs=fs, fch1=fch1,
                           fs_q=bool(rng.random() < 0.4), fch1_q=bool(rng.random() < 0.4), seedform=seedform,
                           seed=int(rng.integers(2 ** 31)), srcs=srcs, ops=ops))
